@@ -155,6 +155,14 @@ def gen_program(rng, maxops, maxctx, asyncio_mode):
         if not rng.chance(55) or cur not in alive:
             cur = rng.choice(alive)
         c = cur
+        if rng.chance(7):
+            # the programme KEPT the objects it handed to loguru (the dict given to configure(extra=), the dicts
+            # splatted into bind / contextualize / logging calls) and the records its sinks received – and now
+            # changes one of them in place.  Nothing of that may show in later records or in any logger.
+            st["serial"] += 1
+            emit(c, op="mutate", what=rng.choice(["configure", "configure", "kw", "record"]), i=rng.below(64),
+                 how=rng.choice(["set", "set", "del", "clear"]), key=pick_key(rng), val=st["serial"])
+            continue
         r = rng.below(100)
         d = depth[c]
         if r < 30:
@@ -285,7 +293,7 @@ def op_token(op):
         return "%d:A" % c
     if k == "remove":
         return "%d:D:%d" % (c, op["i"])
-    if k == "end":
+    if k in ("end", "mutate"):      # a mutation of caller-owned objects is invisible to the model: no token
         return None
     raise ValueError(k)
 
@@ -304,6 +312,11 @@ def describe(op):
     if k == "configure":
         return "logger.configure(extra=%s, patcher=%s)" % (
             None if op["extra"] is None else {key_name(a): b for a, b in op["extra"]}, op["patcher"])
+    if k == "mutate":
+        return "caller mutates the %s it kept (#%d): %s %s" % (
+            {"configure": "dict passed to configure(extra=)", "kw": "dict splatted as **kwargs",
+             "record": "extra of a delivered record"}[op["what"]], op["i"], op["how"],
+            "" if op["how"] == "clear" else key_name(op["key"]))
     return op_token(op)
 
 
@@ -541,6 +554,8 @@ class Run:
         self.records = []          # (record object, snapshot of extra)
         self.pobjs = {}            # patcher id -> PatcherObj
         self.error_details = []
+        self.conf_dicts = []       # the dict objects handed to configure(extra=), kept by "the caller"
+        self.kw_dicts = []         # the dict objects splatted into bind / contextualize / logging calls
         self.events = []
         self.handler_ids = []      # loguru ids, in installation order
         self.hnum = {}             # loguru id -> our number
@@ -599,10 +614,35 @@ class Run:
                 self.records[j] = (rec, dict(rec["extra"]))
 
     # ---- the interpreter of one context (a coroutine; real `with` statements, real exceptions)
-    def kwargs(self, kw, lazy=False):
+    def kwargs(self, kw, lazy=False, keep=True):
         if lazy:
-            return {key_name(k): (lambda v=v: v) for k, v in kw}
-        return {key_name(k): v for k, v in kw}
+            d = {key_name(k): (lambda v=v: v) for k, v in kw}
+        else:
+            d = {key_name(k): v for k, v in kw}
+        if keep:
+            self.kw_dicts.append(d)
+        return d
+
+    def mutate(self, op):
+        what = op["what"]
+        if what == "record":
+            if not self.records:
+                return
+            target = self.records[op["i"] % len(self.records)][0]["extra"]
+        else:
+            pool = self.conf_dicts if what == "configure" else self.kw_dicts
+            if not pool:
+                return
+            target = pool[op["i"] % len(pool)]
+        k = key_name(op["key"])
+        if op["how"] == "set":
+            target[k] = op["val"]
+        elif op["how"] == "del":
+            target.pop(k, None)
+        else:
+            target.clear()
+        if what == "record":      # our own change of that record is legitimate: refresh its snapshots
+            self.records = [(r, dict(r["extra"])) if r["extra"] is target else (r, snap) for r, snap in self.records]
 
     def atomic(self, w, op):
         """operations that are one call into loguru"""
@@ -635,7 +675,8 @@ class Run:
             elif k == "configure":
                 kwargs = {}
                 if op["extra"] is not None:
-                    kwargs["extra"] = self.kwargs(op["extra"])
+                    kwargs["extra"] = self.kwargs(op["extra"], keep=False)
+                    self.conf_dicts.append(kwargs["extra"])
                 if op["patcher"] is not None:
                     kwargs["patcher"] = self.mk_patcher(op["patcher"])
                 self.logger0.configure(**kwargs)
@@ -647,6 +688,8 @@ class Run:
             elif k == "remove":
                 hid = self.handler_ids.pop(op["i"])
                 self.logger0.remove(hid)
+            elif k == "mutate":
+                self.mutate(op)
             else:
                 raise ValueError(k)
         except Exception as e:  # an exception leaving a loguru call is an observable
@@ -940,6 +983,9 @@ def judge(ctx, trace, mode, model_out=None, report=True):
             problems.append(("final", "context %d ends with context-local extra %r instead of the %r it started with"
                              % (c, run.finals[c], spec.inherited[c])))
             break
+    muts = [describe(o) for o in trace if o["op"] == "mutate"]
+    if muts and problems:
+        problems = [(k, t + " [the programme also: " + "; ".join(muts[:3]) + "]") for k, t in problems]
     for step, text in run.alias[:3]:
         problems.append(("alias", "after operation #%d (%s): %s" % (step, op_token(trace[step]), text)))
     # ---- correspondence with the Lean model
